@@ -40,7 +40,7 @@ H0 == 100     \* last committed height at genesis (world W1u: initial height 101
 
 Genesis ==
    [h |-> H0,
-    bal |-> [a1 |-> ("0" :> 3), a2 |-> ("0" :> 3), a3 |-> ("0" :> 1), o1 |-> ("0" :> 100)],
+    bal |-> [a1 |-> ("0" :> 3), a2 |-> ("0" :> 3), a3 |-> ("0" :> 1), o1 |-> ("0" :> 30000)],
     nonce |-> <<>>, lockUntil |-> <<>>, msig |-> <<>>, coins |-> <<>>, nextCoin |-> 1,
     cands |-> [v1 |-> [id |-> 1, owner |-> "o1", control |-> "o1", reward |-> "o1", status |-> 2, jailedUntil |-> 0, comm |-> 10,
                        lastEdit |-> 0, total |-> 1000, stakes |-> <<[o |-> "o1", c |-> "0", v |-> 1000, bv |-> 1000]>>, upd |-> <<>>]],
@@ -160,6 +160,7 @@ WrongSignerTxs ==   \* a3 signs a transaction that names a1's money: the signer 
 
 \* the coin registry (tokens): o1 is rich enough to create tickers; a1 and a2 try what only the ticker's owner may do
 MaxSupply == 40
+RegistryLimits == [maxSupply |-> MaxSupply, minSupply |-> 2, minReserve |-> 10000]
 Tok(type, from, args) == MkTx(type, from, <<from>>, FALSE, "next", args, "")
 NewTok(sym, n, amt, mx, m, b) == [symbol |-> sym, symbolLen |-> n, amount |-> amt, max |-> mx, mintable |-> m, burnable |-> b]
 TokenTxs ==
@@ -173,6 +174,15 @@ TokenTxs ==
     Tok("MintToken", "o1", [coin |-> "2", value |-> 1]), Tok("MintToken", "o1", [coin |-> "9", value |-> 1]),
     Tok("BurnToken", "o1", [coin |-> "1", value |-> 4]), Tok("BurnToken", "o1", [coin |-> "1", value |-> 10]), Tok("BurnToken", "a1", [coin |-> "1", value |-> 1]),
     Tok("Send", "o1", [coin |-> "1", to |-> "a1", value |-> 2])}
+   \cup (IF "Coins" \in Menu
+         THEN {Tok("CreateCoin", "o1", NewTok("TOK", 3, 5, 30, FALSE, FALSE) @@ [reserve |-> 10000, crr |-> 50]),
+               Tok("CreateCoin", "o1", NewTok("COIN", 4, 5, 30, FALSE, FALSE) @@ [reserve |-> 9999, crr |-> 50]),
+               Tok("CreateCoin", "o1", NewTok("COIN", 4, 5, 30, FALSE, FALSE) @@ [reserve |-> 10000, crr |-> 9]),
+               Tok("CreateCoin", "o1", NewTok("COIN", 4, 1, 30, FALSE, FALSE) @@ [reserve |-> 10000, crr |-> 100]),
+               Tok("CreateCoin", "a1", NewTok("POOR", 4, 5, 30, FALSE, FALSE) @@ [reserve |-> 10000, crr |-> 50]),
+               Tok("RecreateCoin", "o1", NewTok("TOK", 3, 6, 40, FALSE, FALSE) @@ [reserve |-> 12000, crr |-> 10]),
+               Tok("RecreateCoin", "a1", NewTok("TOK", 3, 6, 40, FALSE, FALSE) @@ [reserve |-> 12000, crr |-> 10])}
+         ELSE {})
 TxMenu == (IF "Tokens" \in Menu THEN TokenTxs ELSE {}) \cup (IF "Send" \in Menu THEN SendTxs ELSE {})
      \cup (IF "Multisend" \in Menu THEN MultisendTxs ELSE {})
      \cup (IF "Multisig" \in Menu THEN CreateMsTxs \cup MsSpendTxs \cup FundMsTxs \cup EditMsTxs ELSE {})
@@ -191,7 +201,7 @@ TxStep(tx) == [op |-> "tx", id |-> tx.id, type |-> tx.type, from |-> tx.from, si
 
 Deliver(tx) ==
    /\ phase = "begun" /\ cnt.inBlock < MaxTxPerBlock /\ cnt.total < MaxTxTotal
-   /\ LET r == RunTxC(st, tx, st.h, GenesisCfg, MaxSupply)
+   /\ LET r == RunTxC(st, tx, st.h, GenesisCfg, RegistryLimits)
       IN /\ st' = r.st
          /\ ev' = [Ev("DeliverTx", st.h) EXCEPT !.resp = [code |-> r.code, gas |-> 0, tags |-> r.tags, log |-> ""], !.check = r.code] @@ [tx |-> tx]
          /\ hist' = [hist EXCEPT !.accepted = IF r.code = 0 THEN @ \cup {tx.hash} ELSE @,
@@ -248,6 +258,12 @@ ReachStep ==
    /\ Mark("BurnByHolder", OkTx("BurnToken") /\ Tx.sender = "a1")
    /\ Mark("BurnBelowMinimum", RejTx("BurnToken", WrongCoinEmission))
    /\ Mark("BurnNotBurnable", RejTx("BurnToken", CoinNotBurnable))
+   /\ Mark("CoinCreated", OkTx("CreateCoin"))
+   /\ Mark("CoinReserveTooLow", RejTx("CreateCoin", WrongCoinSupply))
+   /\ Mark("CoinWrongCrr", RejTx("CreateCoin", WrongCrr))
+   /\ Mark("CoinCreatorTooPoor", RejTx("CreateCoin", InsufficientFunds))
+   /\ Mark("CoinRecreated", OkTx("RecreateCoin"))
+   /\ Mark("CoinRecreateByOther", RejTx("RecreateCoin", IsNotOwnerOfCoin))
 
 \* scenario dump: printed for every state at a block boundary of the last block
 Dump == (phase = "idle" /\ cnt.blocks = MaxBlocks) => PrintT("SCN " \o ToJson(scn))
